@@ -67,6 +67,9 @@ struct Engine {
     bool (*deletable)(const std::string &line) = nullptr;
     // optional line simplifier: return candidate replacements for a line
     std::vector<std::string> (*simplify)(const std::string &line) = nullptr;
+    // optional second opinion on a violation (e.g. re-run a fault-free twin of the plan); may clear r.status.
+    // Must be a pure function of the plan. Runs on the supervisor side.
+    void (*confirm)(Engine &e, const std::string &plan, RunResult &r) = nullptr;
     // names of counters that are probes ("this rare thing happened"): zero => warning in evidence
     std::vector<std::string> probes;
     uint64_t quick_runs = 1000, thorough_runs = 20000;
@@ -76,6 +79,7 @@ struct Engine {
 
 [[noreturn]] void finish_run(const RunResult &r);  // child side
 RunResult run_plan_in_child(Engine &e, const std::string &plan, bool verbose, int log_fd = -1);
+RunResult run_plan_confirmed(Engine &e, const std::string &plan, bool verbose = false, int log_fd = -1);  // + Engine::confirm
 int driver_main(int argc, char **argv, Engine &e);
 
 }  // namespace sim
